@@ -1,18 +1,23 @@
 #!/bin/bash
-# Re-runs every stored seeded defect against the check of its property: apply to /repo, ./check, undo.
+# Re-runs every stored seeded defect against the check of its property: apply, ./check, undo.
+# By default the patches are applied to /repo itself (nothing else may use /repo or run checks meanwhile).
+# With SEED_REPO=<scratch worktree of /repo HEAD> the patches go there and the checks run with BPTK_REPO set to it,
+# so that a second clone of /verif can run the regression while /repo and the first clone stay in use.
 cd "$(dirname "$0")/.."
-git -C /repo status --short | grep -q . && { echo "/repo not clean"; exit 2; }
+R=${SEED_REPO:-/repo}
+git -C $R status --short | grep -q . && { echo "$R not clean"; exit 2; }
+[ "$R" != /repo ] && export BPTK_REPO=$R
 # evidence files must describe the unchanged tree: keep them aside while seeded trees are checked
-rm -rf /var/tmp/evidence.keep; cp -r evidence /var/tmp/evidence.keep
-trap 'rm -rf evidence; mv /var/tmp/evidence.keep evidence' EXIT
-for d in seeded/*/; do
+K=$(mktemp -d /var/tmp/evidence.keep.XXXX); cp -r evidence/. $K/
+trap 'rm -rf evidence; mkdir evidence; cp -r $K/. evidence/; rm -rf $K' EXIT
+for d in ${SEEDS:-seeded/*/}; do
   id=$(basename $d); p=${id:0:3}
-  if ! git -C /repo apply --check $PWD/$d/patch.diff 2>/dev/null; then echo "$id: patch no longer applies to HEAD"; continue; fi
-  git -C /repo apply $PWD/$d/patch.diff
+  if ! git -C $R apply --check $PWD/seeded/$id/patch.diff 2>/dev/null; then echo "$id: patch no longer applies to HEAD"; continue; fi
+  git -C $R apply $PWD/seeded/$id/patch.diff
   out=$(./check $p 2>&1 | grep "^VIOLATION\|^\[C"); rc=$(echo "$out" | grep -c "^VIOLATION")
-  git -C /repo checkout -- .
+  git -C $R checkout -- .
   echo "$id: $rc violation line(s); $(echo "$out" | grep '^VIOLATION' | head -1)"
-  /venv/bin/python - "$d/meta.json" "$p" "$rc" <<'PY'
+  /venv/bin/python - "seeded/$id/meta.json" "$p" "$rc" <<'PY'
 import json, sys
 f, p, rc = sys.argv[1], sys.argv[2], int(sys.argv[3])
 m = json.load(open(f)); m["regression_last"] = {"check": p, "violation_lines": rc}; json.dump(m, open(f, "w"), indent=1)
